@@ -124,3 +124,29 @@ Proof.
     exfalso. cbn in Hb. intuition discriminate.
   - vm_compute. split; reflexivity.
 Qed.
+
+(* ---------------------------------------------------------------- syntactic tie to the Go source
+   Generated/RenderExpr.v is re-translated from the Go AST of the current source tree on every run
+   (harness/rendergen); Render/GenEqRender.v prove the generated definitions equal to the model the
+   theorems above are about, for all arguments over an arbitrary Ops (all of them: Props/TRANSLR.v).
+   Each theorem below breaks when the Go function it is named after changes what it computes. *)
+From Coq Require Import ZArith List.
+Import ListNotations.
+From Sdfx Require Num.Ops Geo.Vec Render.Interp Render.Octree Generated.RenderExpr Render.GenEqRender.
+Import Num.Ops Geo.Vec.
+
+Theorem C08_TRANSL_msToLines : forall (O : Ops) (p0 p1 p2 p3 : V2 O) (v0 v1 v2 v3 x : T O),
+    RenderExpr.rg_render_msToLines [p0; p1; p2; p3] [v0; v1; v2; v3] x =
+    Interp.ms_to_lines (Octree.sel4 p0 p1 p2 p3) (Octree.sel4 v0 v1 v2 v3) x.
+Proof. exact (@GenEqRender.msToLines_eq). Qed.
+Print Assumptions C08_TRANSL_msToLines.
+
+Theorem C08_TRANSL_msInterpolate : forall (O : Ops) (p1 p2 : V2 O) (v1 v2 x : T O),
+    RenderExpr.rg_render_msInterpolate p1 p2 v1 v2 x = Interp.ms_interpolate p1 p2 v1 v2 x.
+Proof. exact (@GenEqRender.msInterpolate_eq). Qed.
+Print Assumptions C08_TRANSL_msInterpolate.
+
+Theorem C08_TRANSL_Line2_Degenerate : forall (O : Ops) (l : V2 O * V2 O) (tol : T O),
+    RenderExpr.rg_sdf_Line2_Degenerate l tol = Interp.line2_degenerate l tol.
+Proof. exact (@GenEqRender.Line2_Degenerate_eq). Qed.
+Print Assumptions C08_TRANSL_Line2_Degenerate.
